@@ -56,6 +56,9 @@ def line_of(it):
         s = 'print(%d)' % a[0]
     elif k == 'mute':
         s = 'sys.stdout = io.StringIO()'
+    elif k == 'mutec':
+        # the doctest leaves a CLOSED stream of its own in sys.stdout (only ever the LAST statement of a doctest)
+        s = 'sys.stdout = io.StringIO(); sys.stdout.close()'
     elif k == 'filt':
         s = "warnings.simplefilter('error')"
     elif k == 'warn':
@@ -76,7 +79,7 @@ def line_of(it):
 def code_of(it):
     k, a = it['kind'], it['args']
     return {'bind': lambda: 'b.%s.%d' % (a[0], a[1]), 'show': lambda: 's.%s' % a[0], 'inc': lambda: 'i.%s' % a[0],
-            'probe': lambda: 'q.%s' % a[0], 'say': lambda: 'p.%d' % a[0], 'mute': lambda: 'm', 'filt': lambda: 'z',
+            'probe': lambda: 'q.%s' % a[0], 'say': lambda: 'p.%d' % a[0], 'mute': lambda: 'm', 'mutec': lambda: 'm', 'filt': lambda: 'z',
             'warn': lambda: 'z', 'fail': lambda: 'f', 'exit': lambda: 'x', 'dir': lambda: 'n'}[k]()
 
 
@@ -159,6 +162,8 @@ def gen_doc(rng, k, rich=True):
         items.append(item('filt'))
     elif r < 0.52 and rich:
         items.append(item('mute'))
+    elif r < 0.60 and rich:
+        items.append(item('mutec'))
     return items
 
 
